@@ -129,6 +129,18 @@ class SArr:
                 a, b, s = slice_indices(ind.start, ind.stop, st, n)
                 plan.append(("slice", a, s, len(new_shape)))
                 new_shape.append(range_len(a, b, s))
+            elif isinstance(ind, (list, np.ndarray)) and not isinstance(ind, SArr):
+                # one-dimensional integer array index (take along this axis): positions may be symbolic
+                sel = [v for v in (np.asarray(ind).tolist() if isinstance(ind, np.ndarray) else ind)]
+                if any(isinstance(v, (list, tuple)) for v in sel) or any(isinstance(v, (bool, np.bool_)) for v in sel):
+                    raise NotImplementedError("SArr index: only 1-d integer arrays")
+                pos = []
+                for v in sel:
+                    if self.log is not None:
+                        self.log.add("array index entry in range", core._wrapb(z3.And(_z(v) >= -_z(n), _z(v) < _z(n))))
+                    pos.append(core._ite(v < 0, v + n, v))
+                plan.append(("take", tuple(pos), len(new_shape)))
+                new_shape.append(len(pos))
             elif isinstance(ind, (numbers.Integral, SymInt)):
                 ok = core._wrapb(z3.And(_z(ind) >= -_z(n), _z(ind) < _z(n)))
                 if self.log is not None:
@@ -146,10 +158,18 @@ class SArr:
             for p in plan:
                 if p[0] == "int":
                     out.append(_z(p[1]))
+                elif p[0] == "take":
+                    k = idx[p[2]]
+                    e = _z(p[1][-1]) if p[1] else z3.IntVal(0)
+                    for j in range(len(p[1]) - 2, -1, -1):
+                        e = z3.If(k == j, _z(p[1][j]), e)
+                    out.append(e)
                 else:
                     out.append(_z(p[1]) + _z(p[2]) * idx[p[3]])
             return src._at(tuple(out))
 
+        if any(p[0] == "take" for p in plan):
+            return self._derive(new_shape, at)
         return self._derive(new_shape, at, struct=self._index_struct(plan, index, new_shape))
 
     def _index_struct(self, plan, index, new_shape):
@@ -731,9 +751,21 @@ _NP_FUNCS = dict(
     moveaxis=lambda a, s, d: _moveaxis(a, s, d),
     swapaxes=lambda a, i, j: _swapaxes(a, i, j),
     repeat=lambda a, repeats, axis=None: _repeat(a, repeats, axis),
+    take=lambda a, indices, axis=None, **k: _take(a, indices, axis),
     cumsum=lambda a, axis=None, dtype=None, out=None: a.accumulate(axis, "add"),
     sum=lambda a, axis=None, dtype=None, out=None, keepdims=False, **k: a.reduce_axis(axis, "add", keepdims),
 )
+
+
+def _take(a, indices, axis):
+    if axis is None:
+        if a.ndim != 1:
+            raise core.Unsupported("np.take without axis on a multi-dimensional symbolic array")
+        axis = 0
+    axis = int(axis) % a.ndim
+    ix = [slice(None)] * a.ndim
+    ix[axis] = indices if isinstance(indices, (list, np.ndarray)) else [indices]
+    return a[tuple(ix)]
 
 
 def _repeat(a, repeats, axis):
